@@ -2,7 +2,7 @@
 import vlib, s1, gen, s1eval
 
 PROP = "C06"
-STATES = ["keep", "absent", "equal_copy", "different", "other_link", "dangling", "foreign", "dir_in_way", "extra", "fifo", "lexical_lookalike"]
+STATES = ["keep", "absent", "equal_copy", "different", "other_link", "dangling", "foreign", "dir_in_way", "extra", "fifo", "lexical_lookalike", "proper_prefix"]
 
 
 def make_cases(rng, tier, n):
@@ -32,6 +32,13 @@ def make_cases(rng, tier, n):
                 ops.append(("flink", f[1], 0))
             elif st == "foreign":
                 ops.append(("flink", f[1], 1))
+            elif st == "proper_prefix":
+                # a regular file holding a proper prefix of the committed bytes (what an interrupted copy leaves, or simply other data)
+                sd_, n_ = f[2].split(":")[1:]
+                if int(n_) >= 1:
+                    ops.append(("write", f[1], "g:%s:%d" % (sd_, rng.choice([0, int(n_) // 2, int(n_) - 1]))))
+                else:
+                    ops.append(("write", f[1], "g:%d:3" % rng.randrange(5000, 6000)))
             elif st == "lexical_lookalike":
                 # the link TEXT, cleaned lexically, is the path of the right cache object; the link itself resolves elsewhere
                 # (a `..` after a symbolic link to a directory), i.e. it is a foreign, dangling link
